@@ -291,6 +291,13 @@ func (t *textReader) nextBeforeTypeAnnotations() (bool, error) {
 			if err := t.onSymbol(val, tok, ws); err != nil {
 				return false, err
 			}
+			if t.valueType == StructType && t.IsNull() && t.ctx.peek() == ctxAtTopLevel && isIonSymbolTable(t.annotations) {
+				// $ion_symbol_table::null.struct is a symbol table without imports or symbols,
+				// not a value: as in the binary reader it resets the table to the system table.
+				t.clear()
+				t.lst = V1SystemSymbolTable
+				return false, nil
+			}
 		}
 		return true, nil
 
